@@ -30,7 +30,7 @@ ENV = {"ASAN_OPTIONS": R.ENV_SAN["ASAN_OPTIONS"] + ":quarantine_size_mb=16"}
 
 # name, element name, binary, harness kind, harness etype, family, model factory, primary, vec-holding (poison enumeration would crash on unconstructed members)
 CONFIGS = [
-    dict(cont="vector", et="int", bin="c19_seq", kind=0, etc=0, family="seq", mk="vec", primary=True, deep=True),
+    dict(cont="vector", et="int", bin="c19_seq", kind=0, etc=0, family="seq", mk="vec", primary=True, deep=True, deepq=True),
     dict(cont="vector", et="double", bin="c19_seq", kind=0, etc=1, family="seq", mk="vec"),
     dict(cont="static_vector", et="int", bin="c19_seq", kind=1, etc=0, family="seq", mk="svec", primary=True, deep=True),
     dict(cont="static_vector", et="double", bin="c19_seq", kind=1, etc=1, family="seq", mk="svec"),
@@ -50,7 +50,7 @@ CONFIGS = [
     dict(cont="maybe", et="counted", bin="c19_sum", kind=0, etc=2, family="maybe", eks=("counted",), primary=True, deep=True),
     dict(cont="maybe", et="vector_int", bin="c19_sum", kind=0, etc=3, family="maybe", eks=("vec",), primary=True, fragile=True),
     dict(cont="either", et="int_double", bin="c19_sum", kind=1, etc=0, family="either", eks=("int", "double")),
-    dict(cont="either", et="counted_int", bin="c19_sum", kind=1, etc=1, family="either", eks=("counted", "int"), primary=True, deep=True),
+    dict(cont="either", et="counted_int", bin="c19_sum", kind=1, etc=1, family="either", eks=("counted", "int"), primary=True, deep=True, deepq=True),
     dict(cont="either", et="int_counted", bin="c19_sum", kind=1, etc=2, family="either", eks=("int", "counted")),
     dict(cont="either", et="vector_int", bin="c19_sum", kind=1, etc=3, family="either", eks=("vec", "int"), primary=True, fragile=True),
     dict(cont="either", et="int_vector", bin="c19_sum", kind=1, etc=4, family="either", eks=("int", "vec"), fragile=True),
@@ -307,7 +307,7 @@ def run(ctx):
         alpha = M.alphabet(c["family"], c.get("ak", c.get("mk")))
         prim = c.get("primary", False)
         if quick:
-            depth = 5 if c.get("deep") else 4
+            depth = 5 if c.get("deepq") else 4
         else:
             depth = 6 if c.get("deep") else 5
         # exhaustive, zero-filled raw storage
@@ -354,7 +354,7 @@ def run(ctx):
     t_gen = time.time()
     results, crashes, touts = {}, [], []
     for b, lines in per_bin.items():
-        r, cr, to = R.run_cases(bins[(b, "asan")], lines, nbatch=min(B.JOBS, max(1, len(lines))), env_extra=ENV)
+        r, cr, to = R.run_cases(bins[(b, "asan")], lines, nbatch=min(B.JOBS, max(1, len(lines))), env_extra=ENV, timeout=900 if quick else 5400)
         results.update(r)
         crashes += cr
         touts += to
@@ -419,14 +419,17 @@ def run(ctx):
                                       dict(container=cname(c), steps=wit, fill=fill, count=cnt, replay_line=hist_line(c, fill, wit)))
                 else:
                     bad = check_traced(ctx, c, m["steps"], m["fill"], toks, acc)
-                    if not bad and len(ctx.samples) < 6 and m.get("random") and len(m["steps"]) < 14:
-                        ctx.sample(dict(container=cname(c), steps=m["steps"], final_trace=" ".join(toks[-60:])))
+                    if not bad and len(ctx.samples) < 6 and m.get("random") and int(i) % 7 == 0:
+                        ctx.sample(dict(container=cname(c), n_steps=len(m["steps"]), first_steps=m["steps"][:12], trace_head=" ".join(toks[:90])))
             except (ValueError, IndexError) as e:
                 ctx.inconc("%s: unparsable record of case %s: %s" % (cname(c), m.get("steps", m.get("prefix")), e))
     ctx.set("phase_seconds", dict(generate=round(t_gen - ctx.t0, 1), run=round(t_run - t_gen, 1), compare=round(time.time() - t_run, 1)))
-    ncr = len(crashes)
-    if missing > ncr + len(touts):
-        ctx.inconc("%d cases produced no record" % (missing - ncr))
+    explained = {cr.case_id for cr in crashes} | set(touts)
+    unexplained = [i for b_, lines in per_bin.items() for i, _ in lines if i not in results and i not in explained]
+    if unexplained:
+        ctx.inconc("%d cases produced no record and no crash/timeout explains it (first: %s)" % (len(unexplained), meta[unexplained[0]].get("steps", meta[unexplained[0]].get("prefix"))))
+    ctx.set("timeouts", len(touts))
+    ctx.set("cases_without_record", missing)
 
     # ------------------------------------------------------------------ memcheck on a sample (thorough)
     mc = None
